@@ -6,11 +6,13 @@
                observed MRO, and Spec.call reproduces every observed call outcome (both semantics tied)
      v_class : KwargsGuard.klass_top (0 = hypotheses of the theorems hold); a finding class is kept only when
                the faithful model reproduces the observation, otherwise 9 (not a listed finding)
-     v_spec  : the property, decided from the OBSERVED offered list with Spec.call (exact_b), and no
-               observed call with offered names only was refused a keyword *)
+     v_spec  : the property, decided from the OBSERVED offered list with Spec.call (exact_b), no observed call
+               with offered names only was refused a keyword, and — when other callables of the program were
+               resolved earlier in the same process — the offered list is the one a pristine process gives *)
 From JV Require Import Lib.Base Model.Kwargs Model.KwargsGuard Model.C13KwargsFx Spec.KwargsSpec.
 
 Record case := { c_prog : prog; c_cls : nat; c_mro : list nat; c_offered : list rparam;
+                 c_alone : list rparam;   (* what the implementation offers in a pristine process (no history) *)
                  c_parser : list str; c_trials : list (list str * outcome) }.
 
 Definition FUEL : nat := 40.
@@ -48,6 +50,7 @@ Definition judge1 (c : case) : verdict :=
   {| v_model := ma;
      v_class := if N.eqb k 0 || ma then k else 9%N;
      v_spec := exact_b FUEL P (c_cls c) (c_offered c)
+               && list_eqb rparam_eqb (c_offered c) (c_alone c)   (* the answer does not depend on the history *)
                && forallb (fun t => negb (subset_str (fst t) (names (c_offered c)))
                                     || negb (rejected (snd t))) (c_trials c) |}.
 
@@ -86,6 +89,7 @@ Definition judge1_fx (fx : fixes) (c : case) : verdict :=
      v_class := if N.eqb k0 0 then 0%N
                 else if ma && listed_fx fx k then k else 9%N;
      v_spec := exact_b FUEL P (c_cls c) (c_offered c)
+               && list_eqb rparam_eqb (c_offered c) (c_alone c)   (* the answer does not depend on the history *)
                && forallb (fun t => negb (subset_str (fst t) (names (c_offered c)))
                                     || negb (rejected (snd t))) (c_trials c) |}.
 
